@@ -207,6 +207,59 @@ func runC15(t *testing.T, seed uint64, tier string) (*Scenario, *Result) {
 				sim.Stats["probe.token_clock_advanced"]++
 				continue
 			}
+			if r.Bool(0.15) {
+				// 2-4 websocket attempts in the same instant, valid and invalid tokens mixed: each
+				// is decided on its own token (the gates are shared by all connections)
+				m := 2 + r.Intn(3)
+				type att struct {
+					k       *c15tok
+					c       *Client
+					entered int
+				}
+				var atts []*att
+				for i := 0; i < m; i++ {
+					signWith := cur
+					if cur == "" || r.Bool(0.5) {
+						signWith = "not-the-secret"
+					}
+					k := &c15tok{secret: signWith, alg: "HS256", iat: now, exp: now.Add(time.Hour)}
+					claims := jwt.MapClaims{"iss": "HDS", "app_key": "app", "iat": k.iat.Unix(), "exp": k.exp.Unix(), "jti": fmt.Sprint(r.Uint64())}
+					k.iat, k.exp = time.Unix(k.iat.Unix(), 0), time.Unix(k.exp.Unix(), 0)
+					k.str, _ = jwt.NewWithClaims(jwt.SigningMethodHS256, claims).SignedString([]byte(k.secret))
+					k.desc = fmt.Sprintf("alg=HS256 key=%q (one of %d simultaneous attempts)", k.secret, m)
+					a := &att{k: k}
+					carrier := []string{"header", "query", "cookie"}[r.Intn(3)]
+					a.c = w.Connect(ConnectOpts{Label: fmt.Sprintf("p%d.%d", step, i), Tokens: map[string]string{carrier: k.str}, NoToken: true, Inner: func(conn *websocket.Conn) {
+						a.entered++
+						inner++
+						conn.Close()
+					}})
+					atts = append(atts, a)
+				}
+				rn.quiesce()
+				tnow := time.Now()
+				sim.Stats["probe.simultaneous_handshakes"]++
+				for _, a := range atts {
+					rn.res.Triggers["auth_attempts"]++
+					admitted := a.c.Status == 101
+					if admitted != (a.entered == 1) {
+						rn.v("C15", "inner-entered-on-reject", "websocket attempt with %s: status %d but the protected handler was entered %d times", a.k.desc, a.c.Status, a.entered)
+					}
+					switch {
+					case a.k.clearlyValid(cur, now) && a.k.clearlyValid(cur, tnow):
+						rn.res.Triggers["auth_clearly_valid"]++
+						if !admitted {
+							rn.v("C15", "rejected-valid-token", "websocket attempt with a token valid under the current secret (%s) was rejected with status %d", a.k.desc, a.c.Status)
+						}
+					case a.k.clearlyInvalid([]string{cur}, now) && a.k.clearlyInvalid([]string{cur}, tnow):
+						rn.res.Triggers["auth_clearly_invalid"]++
+						if admitted {
+							rn.v("C15", "admitted-without-valid-token", "websocket attempt was admitted with a token that does not verify against the secret currently issued (token: %s)", a.k.desc)
+						}
+					}
+				}
+				continue
+			}
 			// an attempt
 			var k *c15tok
 			switch {
